@@ -1148,8 +1148,15 @@ class Interp:
                 vals = self.bind(node, args, kwargs, self.defaults_env(f), f.self_obj)
                 if c.pure:
                     # a pure function applied to the same argument objects yields the same result object
+                    if c.pure_on:
+                        # the postcondition determines the result pointwise from these sub-objects only, so two
+                        # calls agreeing on them yield the same result
+                        menv = Env(f.mod, None, dict(vals))
+                        kv = [(ex, self.engine.eval_clause(self, ex, menv)) for ex in c.pure_on]
+                    else:
+                        kv = sorted(vals.items())
                     key = (c.qual,) + tuple((k, id(v) if not isinstance(v, (int, str, Fraction, bool, type(None))) else ('v', v))
-                                            for k, v in sorted(vals.items()))
+                                            for k, v in kv)
                     memo = self.p.__dict__.setdefault('pure_memo', {})
                     if key in memo:
                         return memo[key][1]
